@@ -1,0 +1,28 @@
+//go:build verif
+
+// Hooks for the C13 (blocked Read/Write/Accept always wake) harness of /verif.
+// Compiled only with -tags verif; add-only, no behaviour of the package changes.
+package kcp
+
+import "time"
+
+// VerifWaitUpdate runs the session's periodic update once (the harness replaces
+// SystemTimedSched by an inert instance inside a synctest bubble and pumps by hand).
+func VerifWaitUpdate(s *UDPSession) { s.update() }
+
+// VerifWaitSetRefTime sets the reference instant of the 32-bit millisecond clock.
+func VerifWaitSetRefTime(t time.Time) { refTime = t }
+
+// VerifWaitNotifyWriteError reports a socket write error exactly like tx does.
+func VerifWaitNotifyWriteError(s *UDPSession, err error) { s.notifyWriteError(err) }
+
+// VerifWaitState returns what Read and Write test under the lock: the size of the next
+// readable message (<= 0: none), the bytes left over in bufptr, WaitSnd and snd_wnd.
+func VerifWaitState(s *UDPSession) (peek, bufptr, waitsnd, sndwnd int) {
+	s.mu.Lock()
+	defer s.mu.Unlock()
+	return s.kcp.PeekSize(), len(s.bufptr), s.kcp.WaitSnd(), int(s.kcp.snd_wnd)
+}
+
+// VerifWaitBacklog returns the number of sessions waiting in the listener's accept queue.
+func VerifWaitBacklog(l *Listener) int { return len(l.chAccepts) }
